@@ -59,9 +59,10 @@ def replay_trace(prop, path):
         if '"t":"start"' in first:
             ok, at, _ = core.validate_trace(work, "TraceWalk", path)
             verdict = "accepted" if ok else "rejected"
-        elif "-memtrace-" in os.path.basename(path):
-            core.write_cfg(work.path("TraceMem.cfg"), {}, constraint="HighWater", postcondition="Accepted")
-            ok, at, _ = core.validate_trace(work, "TraceMem", path, cfgname="TraceMem.cfg")
+        elif "-memtrace-" in os.path.basename(path) or "-uptrace-" in os.path.basename(path):
+            mod = "TraceMem" if "-memtrace-" in os.path.basename(path) else "TraceUp"
+            core.write_cfg(work.path(mod + ".cfg"), {}, constraint="HighWater", postcondition="Accepted")
+            ok, at, _ = core.validate_trace(work, mod, path, cfgname=mod + ".cfg")
             verdict = "accepted" if ok else "rejected"
         else:
             verdict, at, _ = core.validate_conc(work, path)
